@@ -2,8 +2,8 @@
 From Coq Require Import List Bool Arith NArith ZArith String Ascii.
 From Coq.Strings Require Import Byte.
 From Verif.Base Require Import Bytes Outcome Str.
-From Verif.Model Require Import IE Codec Record SetB Msg Exporter.
-From Verif.Driver Require Import Show SetShow HistShow.
+From Verif.Model Require Import IE Codec Record SetB Msg Exporter ExpObj.
+From Verif.Driver Require Import Show SetShow HistShow HistObj.
 Import ListNotations.
 Local Open Scope N_scope.
 
@@ -40,21 +40,78 @@ Fixpoint c08_walk (c : hcase) (acc : N) (sends : list (list dop)) (os : list sob
   | _, _ => false
   end.
 
-Definition C08_holds_on (c : hcase) (o : list sobs * fobs) : bool :=
+(* the histories of Driver/HistShow.v: one process, one fresh set per send *)
+Definition C08_holds_on_h (c : hcase) (o : list sobs * fobs) : bool :=
   c08_walk c (u32 (hc_seq0 c)) (hc_sends c) (fst o) (snd o).
 
 Definition all_ok (os : list sobs) : bool :=
   forallb (fun o => match so_res o with ROk _ => true | _ => false end) os.
 
+(* ---- object-level histories with reconnects (Model/ExpObj.v) ----
+   The statement is per exporting process: [acc] is the number the property predicts for the
+   CURRENT process - its start value plus the data records of the data messages it has
+   transmitted so far, modulo 2^32; a reconnect starts a new process (new start value, nothing
+   transmitted yet). Failed attempts are outside the statement: a call refused by the checks
+   that precede the counter update (settype / notemplate / sanity / encode / setid) transmits
+   nothing and the walk goes on with the same prediction; after any other failure (size limit,
+   write error, panic) the prediction for this process is given up ([None]) until the next
+   reconnect. [s] is the set as SendSet saw it (ghost output of the model run: only its type and
+   record count are used). *)
+Definition pre_check (k : string) : bool :=
+  String.eqb k "settype" || String.eqb k "notemplate" || String.eqb k "sanity" ||
+  String.eqb k "encode" || String.eqb k "setid".
+Definition seq_is (acc : option N) (h : list byte) : bool :=
+  match acc with Some a => N.eqb (hfield h 8 4) a | None => true end.
+
+Fixpoint c08g_walk (obs : N) (acc : option N) (outs : list gout) (os : list gobs) (f : fobs) : bool :=
+  match outs, os with
+  | [], [] => String.eqb (fo_stray f) "-" && match acc with Some a => N.eqb (fo_seq f) a | None => true end
+  | OSent _ s _ _ :: ro, GOSend o :: rs =>
+      match so_res o with
+      | ROk n =>
+          let acc' := option_map (fun a => u32 (a + data_count s)) acc in
+          match wire_head (so_wire o), wire_len (so_wire o) with
+          | Some h, Some len =>
+              N.eqb len n &&                                  (* reported count = bytes on the wire *)
+              Nat.leb 20 (List.length h) &&
+              N.eqb (hfield h 0 2) 10 &&
+              N.eqb (hfield h 2 2) len &&                     (* exactly one message *)
+              String.eqb (so_t o) "ok" &&                     (* export time within the harness's clock readings *)
+              seq_is acc' h &&                                (* sequence number *)
+              N.eqb (hfield h 12 4) (u32 obs) &&              (* observation domain *)
+              c08g_walk obs acc' ro rs f
+          | _, _ => false
+          end
+      | RErr k => c08g_walk obs (if pre_check k then acc else None) ro rs f
+      | RPanic => c08g_walk obs None ro rs f
+      end
+  | ORefresh _ _ _ :: ro, GORefresh ws _ :: rs =>
+      (* refreshed templates carry the current number and do not advance it *)
+      forallb (fun w => match wire_head w with
+                        | Some h => Nat.leb 20 (List.length h) && seq_is acc h && N.eqb (hfield h 12 4) (u32 obs)
+                        | None => false
+                        end) ws &&
+      c08g_walk obs acc ro rs f
+  | OReconn _ q :: ro, GOReconn s :: rs => String.eqb s "-" && c08g_walk obs (Some (u32 q)) ro rs f
+  | _, _ => false
+  end.
+
+Definition C08_holds_on (c : gcase) (o : list gobs * fobs) : bool :=
+  c08g_walk (gc_obs c) (Some (u32 (gc_seq0 c))) (gouts cur c) (fst o) (snd o).
+
+Definition all_ok_g (os : list gobs) : bool :=
+  forallb (fun o => match o with GOSend s => match so_res s with ROk _ => true | _ => false end | _ => true end) os.
+
 Definition c08_run (case obs : list string) : string :=
-  match parse_hcase case with
+  match parse_gcase case with
   | Some c =>
-      let m := hist_model cur c in
-      show_hist m ++ " | " ++
-      show_bool (match parse_hobs (S (List.length obs)) obs with
-                 | Some o => C08_holds_on c o
+      let p := grun_all cur c in
+      let m := gmodel_of (gc_full c) p in
+      show_ghist m ++ " | " ++
+      show_bool (match parse_gobs (S (List.length obs)) obs with
+                 | Some o => c08g_walk (gc_obs c) (Some (u32 (gc_seq0 c))) (fst p) (fst o) (snd o)
                  | None => false
                  end)
-      ++ " " ++ show_bool (all_ok (fst m))
+      ++ " " ++ show_bool (all_ok_g (fst m))
   | None => "PARSE-ERROR"
   end.
